@@ -95,8 +95,8 @@ def gen_case(seed: int, i: int, n_files: int):
         cfg["gdeny"] = [_ditem(r, r.random() < knobs["bad"]) for _ in range(r.randint(0, 2))]
     if r.random() < 0.35:
         cfg["gpat"] = _rule(r, knobs)
-    via = r.choices(["api", "cli-rules", "cli-yaml", "cli-json"], [0.94, 0.03, 0.02, 0.01])[0]
-    wrap = r.choice(["file-placement", "file_placement", None]) if via in ("api", "cli-rules") else "file-placement"
+    via = r.choices(["api", "linter", "cli-rules", "cli-yaml", "cli-json"], [0.84, 0.10, 0.03, 0.02, 0.01])[0]
+    wrap = r.choice(["file-placement", "file_placement", None]) if via in ("api", "linter", "cli-rules") else "file-placement"
     paths = []
     real_keys = [k.rstrip("/") for k, _ in (cfg["dirs"] or []) if k != "/"]
     for _ in range(n_files * 3):
@@ -133,7 +133,7 @@ def gen_case(seed: int, i: int, n_files: int):
         k = r.random()
         if the_cwd and p.startswith(the_cwd + "/") and k < 0.6:
             files.append({"cwd": the_cwd, "rest": p[len(the_cwd) + 1:], "relative": True})
-        elif k < 0.25 or via != "api":
+        elif k < 0.25 or via not in ("api", "linter"):
             files.append({"cwd": "", "rest": p, "relative": True})
         else:
             files.append({"cwd": "", "rest": p, "relative": False})
@@ -457,6 +457,46 @@ def _run_api(case, root: Path, orch=None):
     return outs
 
 
+def _run_linter(case, root: Path):
+    """the library entry points below the orchestrator: FilePlacementLinter(config_obj=.., project_root=ROOT).lint_path /
+    check_file_allowed, and the package-level lint(path, config) (project root = working directory) for files handed over
+    relative to the root"""
+    from harness.common import ensure_repo_on_path
+    ensure_repo_on_path()
+    from loguru import logger as _lg
+    _lg.disable("src")
+    from src.linters import file_placement as fp
+    cfgd = _wrapped(case)
+    try:
+        linter = fp.FilePlacementLinter(config_obj=cfgd, project_root=root)
+    except ValueError as e:
+        return [{"rejected": str(e)} for _ in case["files"]]
+    except Exception as e:  # noqa: BLE001 - the orchestrator would swallow it
+        return [{"crashed": type(e).__name__} for _ in case["files"]]
+    home = os.getcwd()
+    outs = []
+    for f in case["files"]:
+        try:
+            os.chdir(root / f["cwd"] if (f["relative"] and f["cwd"]) else root)
+            path = Path(f["rest"]) if f["relative"] else root / relpath(f)
+            if f["relative"] and not f["cwd"]:
+                vs = fp.lint(path, cfgd)
+            else:
+                vs = linter.lint_path(path)
+            reps = [_vrep({"rule_id": v.rule_id, "file_path": str(v.file_path), "line": v.line, "column": v.column, "message": v.message})
+                    for v in vs]
+            if linter.check_file_allowed(path) != (not linter.lint_path(path)):
+                reps.append(["<check_file_allowed disagrees with lint_path>", 0, 0, ""])
+            outs.append({"reports": reps})
+        except ValueError as e:
+            outs.append({"rejected": str(e)})
+        except Exception as e:  # noqa: BLE001
+            outs.append({"crashed": type(e).__name__})
+        finally:
+            os.chdir(home)
+    return outs
+
+
 def _run_cli(case, root: Path, home: Path):
     import yaml
     via = case["via"]
@@ -581,6 +621,8 @@ def run_impl(case):
         _make_tree(root, case)
         if case["via"] == "api":
             return {"outcomes": _run_api(case, root), "norm": _norms(case)}
+        if case["via"] == "linter":
+            return {"outcomes": _run_linter(case, root), "norm": _norms(case)}
         if case["via"] == "api-rules":
             return {"outcomes": _run_api(case, root, _orch_from_source(case["src"], root)), "norm": _norms(case)}
         home = d / "home"
@@ -728,7 +770,7 @@ def _case_reductions(case):
                 o["files"] = [f for f in o["files"] if f["rest"] != ".thailint.yaml"] or o["files"]
         return out
     f = case["files"][0]
-    if f["relative"] and not f["cwd"] and case["via"] == "api":
+    if f["relative"] and not f["cwd"] and case["via"] in ("api", "linter"):
         out.append({**case, "files": [{**f, "relative": False}]})
     for c in _cfg_reductions(case["cfg"]):
         out.append({**copy.deepcopy(case), "cfg": c})
@@ -828,7 +870,8 @@ def run(tier: str, seed: int, replay: str | None = None) -> int:
                 "global_patterns, occasionally a syntactically invalid pattern) x every path of a generated tree (root-level files, "
                 "nested directories, names that extend a key without a separator, upper-case names), handed to the linter as an "
                 "absolute path or relative to a working directory, through Orchestrator.lint_file in-process and, for a fraction of "
-                "the rule sets, through the CLI (--rules, .thailint.yaml, --config json). One evaluation = one (rule set, file). "
+                "the rule sets, through the library entry points (FilePlacementLinter.lint_path / check_file_allowed, file_placement.lint) "
+                "and the CLI (--rules, .thailint.yaml, --config json). One evaluation = one (rule set, file). "
                 "Non-trivial = the rule set is accepted and some directory rule contains the file or a global list is configured, or "
                 "the rule set is rejected; distinct = distinct (rule set, path, presentation). Besides, histories in one process for one "
                 "project root (rule set A, fresh Orchestrator/Linter with B, with no rules, A again; by config dict or by a .thailint.yaml "
@@ -844,121 +887,141 @@ def run(tier: str, seed: int, replay: str | None = None) -> int:
     ]
     chk.build(["theories/Props/C18.v"], ["PlacementGen"], known_v=["theories/Props/C18Known.v"])
     # larger budget when something of this property no longer checks or its hand-modelled sources changed
-    # (fingerprints of other properties' sources are not this check's business)
+    # (fingerprints of other properties' sources are not this check's business): up to `scale` rounds of the
+    # normal budget over fresh indices of the same PRNG chain, stopping after the round that exhibits a failing input
     mine_changed = [k for k in chk.fingerprint_changed if "file_placement" in k]
     scale = 4 if chk.broken else 3 if mine_changed else 1
     chk.fingerprint_changed = mine_changed
-    n_cfg = (300 if tier == "quick" else 3000) * scale
+    n_cfg = 300 if tier == "quick" else 3000
     n_files = 20 if tier == "quick" else 22
-    n_seq = (24 if tier == "quick" else 240) * scale
-    if replay:
-        rc = json.loads(Path(replay).read_text())["violation"]["case"]
-        items = [rc if "seq" in rc else finish_case(rc)]
-    else:
-        n_src = (70 if tier == "quick" else 700) * scale
-        items = (corpus_cases() + [gen_seq(seed, i, 12) for i in range(n_seq)] + [gen_src(seed, i, 10) for i in range(n_src)]
-                 + gen_cases(seed, n_cfg, n_files))
-    cases, impls = flatten(items, pool_map(run_impl, items, procs=PROCS))
+    n_seq = 24 if tier == "quick" else 240
+    n_src = 70 if tier == "quick" else 700
+
+    def round_items(k):
+        if replay:
+            rc = json.loads(Path(replay).read_text())["violation"]["case"]
+            return [rc if "seq" in rc else finish_case(rc)]
+        return ((corpus_cases() if k == 0 else []) + [gen_seq(seed, i, 12) for i in range(k * n_seq, (k + 1) * n_seq)]
+                + [gen_src(seed, i, 10) for i in range(k * n_src, (k + 1) * n_src)]
+                + [gen_case(seed, i, n_files) for i in range(k * n_cfg, (k + 1) * n_cfg)])
     import contextlib
     stack = contextlib.ExitStack()     # the scratch model directory stays alive for the shrinker
     wd = stack.enter_context(scratch_dir("tv-c18-coq-"))
-    th_used = None
-    if True:
+    failed = getattr(chk, "build_result", None).failed if getattr(chk, "build_result", None) else {}
+    state = {"th": None, "th_tried": False, "model_ok": not any(f"theories/{sub}/{name}" in failed for sub, name in MODEL_FILES),
+             "cands_all": None, "ref": 0}
+    timeouts: list = []
+
+    def judge_round(cases, impls, k):
         verdicts = None
-        failed = getattr(chk, "build_result", None).failed if getattr(chk, "build_result", None) else {}
-        model_built = not any(f"theories/{sub}/{name}" in failed for sub, name in MODEL_FILES)
-        if model_built:
+        if state["model_ok"]:
             try:
-                verdicts = judge(cases, impls, wd / "a")
+                return judge(cases, impls, wd / f"a{k}")
             except RuntimeError as e:
+                state["model_ok"] = False
                 chk.broken.append(f"Model:evaluation of the placement model failed ({str(e)[:400]})")
-        if verdicts is None:
-            th = recorded_layer_theories(wd / "recorded")
-            if th is not None:
+        if not state["th_tried"]:
+            state["th_tried"] = True
+            state["th"] = recorded_layer_theories(wd / "recorded")
+            if state["th"] is not None:
                 chk.notes.append("the current generated layer / model does not build: cases were judged with the model built against the "
                                  "generated layer recorded for the unchanged tree (coq/Gen.expected/PlacementGen.v.txt), only to search "
                                  "for a failing input; the broken obligations above already fail the run")
-                try:
-                    verdicts = judge(cases, impls, wd / "b", th=th)
-                    th_used = th
-                except RuntimeError as e:
-                    chk.broken.append(f"Model:evaluation with the recorded generated layer failed too ({str(e)[:300]})")
-        if verdicts is None:
-            verdicts = [None] * len(cases)
-    # which candidate vector explains the implementation on ALL files (index 0 = the claimed vector)
-    cands_all = None
-    for impl, ver in zip(impls, verdicts):
-        for o, bits in zip(impl["outcomes"], ver or []):
-            if o.get("timeout"):
-                continue
-            cand = [bool(b) for b in bits[2:]]
-            cands_all = cand if cands_all is None else [a and b for a, b in zip(cands_all, cand)]
-    ref = 0
-    timeouts: list = []
-    if cands_all is not None and not cands_all[0] and any(cands_all):
-        ref = cands_all.index(True)
-    for case, impl, ver in zip(cases, impls, verdicts):
-        cfg = spec_cfg(src_of(case))
-        chk.dist("via:" + case["via"])
-        if "src" in case:
-            sf, sr = case["src"]["file"], case["src"]["rules"]
-            chk.dist("source:file=" + {None: "none", "W": "section", "U": "top-level keys"}[sf and sf[0]] +
-                     ",rules=" + {None: "none", "W": "section", "U": "top-level keys", "T": "allow/deny form"}[sr and sr[0]])
-        chk.dist(f"dir_rules:{len(cfg['dirs'] or [])}")
-        chk.dist("global_deny:" + ("yes" if cfg["gdeny"] is not None else "no"))
-        chk.dist("global_patterns:" + ("yes" if cfg["gpat"] is not None else "no"))
-        bad = not all(tabulate(case)[1])
-        if bad:
-            chk.dist("rule sets with an invalid pattern")
-        chk.sample({"config": _shown(case), "via": case["via"],
-                    "files": [{"path": relpath(f), "cwd": f["cwd"], "relative": f["relative"], "impl": o}
-                              for f, o in list(zip(case["files"], impl["outcomes"]))[:6]]}, 3)
-        for j, (f, o) in enumerate(zip(case["files"], impl["outcomes"])):
-            cov, near = classify(cfg, f)
-            has_global = cfg["gdeny"] is not None or cfg["gpat"] is not None
-            chk.count([cfg, f], bool(bad or cov or has_global))
-            chk.dist("file:covered" if cov else ("file:global-only" if has_global else "file:no-rule-applies"))
-            if len(cov) > 1:
-                chk.dist("file:nested-rules")
-            if near:
-                chk.dist("file:key-is-bare-string-prefix")
-            if f["relative"] and f["cwd"]:
-                chk.dist("file:relative-to-subdirectory")
-            if "\\" in relpath(f):
-                chk.dist("file:backslash in a name")
-            if any(part.startswith(".") for part in relpath(f).split("/")) and not relpath(f).startswith(".thailint."):
-                chk.dist("file:dot-prefixed component" + (" (leading)" if relpath(f).startswith(".") else " (nested)"))
-                if any(part.startswith(".") for k in cov for part in k.split("/")):
-                    chk.dist("file:covered by a hidden-directory key")
-            chk.dist("impl:" + ("rejected" if "rejected" in o else "crashed" if "crashed" in o else "reported" if o["reports"] else "clean"))
-            if o.get("timeout"):
-                timeouts.append({"via": case["via"], "file": f})
-                continue
-            if ver is None:
-                continue
-            bits = ver[j]
-            chk.traces_validated += 1
-            spec_ok, ideal_ok, cand = bool(bits[0]), bool(bits[1]), [bool(b) for b in bits[2:]]
-            if spec_ok:
-                continue
-            one = case.get("history") or {**{k: case[k] for k in ("i", "cfg", "via", "wrap", "src") if k in case}, "files": [f]}
-            info = {"reason": "reported violations differ from the allow/deny specification", "config": _wrapped(case),
-                    "file": f, "impl": o, "case": one}
-            if ref == 0:
-                relevant = [FLAGS[k] for k in range(len(FLAGS)) if not cand[1 + k]]
-            else:  # a listed defect is no longer observed: the remaining listed flags explain the case
-                relevant = [FLAGS[k] for k in range(len(FLAGS)) if 1 + k != ref and ref != len(FLAGS) + 1]
-            if cand[ref] and ideal_ok and not relevant and ref == 0:
-                # several listed defects compensate one another on this input: no single flag changes the output,
-                # switching all of them off does (model ideal = spec); attribute to the findings still listed as known
-                relevant = [k for k in FLAGS if k in chk.known["known"]]
-            if cand[ref] and ideal_ok and relevant:
-                for k in relevant:
-                    chk.known_finding(k, {"config": _shown(case), "file": f, "impl": o})
-            else:
-                info["model_actual_matches_impl"] = cand[0]
-                info["model_ideal_matches_spec"] = ideal_ok
-                chk.violation(info)
+        if state["th"] is not None:
+            try:
+                verdicts = judge(cases, impls, wd / f"b{k}", th=state["th"])
+            except RuntimeError as e:
+                chk.broken.append(f"Model:evaluation with the recorded generated layer failed too ({str(e)[:300]})")
+                state["th"] = None
+        return verdicts if verdicts is not None else [None] * len(cases)
+
+    def decide_round(cases, impls, verdicts):
+        # which candidate vector explains the implementation on ALL files so far (index 0 = the claimed vector)
+        cands_all = state["cands_all"]
+        for impl, ver in zip(impls, verdicts):
+            for o, bits in zip(impl["outcomes"], ver or []):
+                if o.get("timeout"):
+                    continue
+                cand = [bool(b) for b in bits[2:]]
+                cands_all = cand if cands_all is None else [a and b for a, b in zip(cands_all, cand)]
+        state["cands_all"] = cands_all
+        ref = 0
+        if cands_all is not None and not cands_all[0] and any(cands_all):
+            ref = cands_all.index(True)
+        state["ref"] = ref
+        for case, impl, ver in zip(cases, impls, verdicts):
+            cfg = spec_cfg(src_of(case))
+            chk.dist("via:" + case["via"])
+            if "src" in case:
+                sf, sr = case["src"]["file"], case["src"]["rules"]
+                chk.dist("source:file=" + {None: "none", "W": "section", "U": "top-level keys"}[sf and sf[0]] +
+                         ",rules=" + {None: "none", "W": "section", "U": "top-level keys", "T": "allow/deny form"}[sr and sr[0]])
+            chk.dist(f"dir_rules:{len(cfg['dirs'] or [])}")
+            chk.dist("global_deny:" + ("yes" if cfg["gdeny"] is not None else "no"))
+            chk.dist("global_patterns:" + ("yes" if cfg["gpat"] is not None else "no"))
+            bad = not all(tabulate(case)[1])
+            if bad:
+                chk.dist("rule sets with an invalid pattern")
+            chk.sample({"config": _shown(case), "via": case["via"],
+                        "files": [{"path": relpath(f), "cwd": f["cwd"], "relative": f["relative"], "impl": o}
+                                  for f, o in list(zip(case["files"], impl["outcomes"]))[:6]]}, 3)
+            for j, (f, o) in enumerate(zip(case["files"], impl["outcomes"])):
+                cov, near = classify(cfg, f)
+                has_global = cfg["gdeny"] is not None or cfg["gpat"] is not None
+                chk.count([cfg, f], bool(bad or cov or has_global))
+                chk.dist("file:covered" if cov else ("file:global-only" if has_global else "file:no-rule-applies"))
+                if len(cov) > 1:
+                    chk.dist("file:nested-rules")
+                if near:
+                    chk.dist("file:key-is-bare-string-prefix")
+                if f["relative"] and f["cwd"]:
+                    chk.dist("file:relative-to-subdirectory")
+                if "\\" in relpath(f):
+                    chk.dist("file:backslash in a name")
+                if any(part.startswith(".") for part in relpath(f).split("/")) and not relpath(f).startswith(".thailint."):
+                    chk.dist("file:dot-prefixed component" + (" (leading)" if relpath(f).startswith(".") else " (nested)"))
+                    if any(part.startswith(".") for k in cov for part in k.split("/")):
+                        chk.dist("file:covered by a hidden-directory key")
+                chk.dist("impl:" + ("rejected" if "rejected" in o else "crashed" if "crashed" in o else "reported" if o["reports"] else "clean"))
+                if o.get("timeout"):
+                    timeouts.append({"via": case["via"], "file": f})
+                    continue
+                if ver is None:
+                    continue
+                bits = ver[j]
+                chk.traces_validated += 1
+                spec_ok, ideal_ok, cand = bool(bits[0]), bool(bits[1]), [bool(b) for b in bits[2:]]
+                if spec_ok:
+                    continue
+                one = case.get("history") or {**{k: case[k] for k in ("i", "cfg", "via", "wrap", "src") if k in case}, "files": [f]}
+                info = {"reason": "reported violations differ from the allow/deny specification", "config": _wrapped(case),
+                        "file": f, "impl": o, "case": one}
+                if ref == 0:
+                    relevant = [FLAGS[k] for k in range(len(FLAGS)) if not cand[1 + k]]
+                else:  # a listed defect is no longer observed: the remaining listed flags explain the case
+                    relevant = [FLAGS[k] for k in range(len(FLAGS)) if 1 + k != ref and ref != len(FLAGS) + 1]
+                if cand[ref] and ideal_ok and not relevant and ref == 0:
+                    # several listed defects compensate one another on this input: no single flag changes the output,
+                    # switching all of them off does (model ideal = spec); attribute to the findings still listed as known
+                    relevant = [k for k in FLAGS if k in chk.known["known"]]
+                if cand[ref] and ideal_ok and relevant:
+                    for k in relevant:
+                        chk.known_finding(k, {"config": _shown(case), "file": f, "impl": o})
+                else:
+                    info["model_actual_matches_impl"] = cand[0]
+                    info["model_ideal_matches_spec"] = ideal_ok
+                    chk.violation(info)
+
+    rounds = 1 if replay else scale
+    for k in range(rounds):
+        items = round_items(k)
+        cases, impls = flatten(items, pool_map(run_impl, items, procs=PROCS))
+        decide_round(cases, impls, judge_round(cases, impls, k))
+        if chk.violations:
+            if k + 1 < rounds:
+                chk.notes.append(f"search stopped after round {k + 1} of {rounds}: a failing input was found")
+            break
+    cands_all, ref, th_used = state["cands_all"], state["ref"], state["th"]
     if timeouts:
         chk.broken.append(f"Impl:{len(timeouts)} CLI runs timed out three times (180/360/540 s); no verdict for those files, e.g. {timeouts[0]}")
     if cands_all is not None and not cands_all[0]:
